@@ -146,3 +146,48 @@ let () =
        | _ -> failwith ("bad script command " ^ cmd))
     done;
     String.concat " ; " (List.rev !out))
+
+(* rpm: make_solver<relaxation::as_preconditioner<chebyshev>, S> (or the bare preconditioner, solver = none).
+   The Chebyshev object state (p, r) is threaded by the extracted ReuseProofs4.cheby_sp (as_preconditioner::apply =
+   clear x, then solve); it starts junk-filled (result independence: C15_chebyshev_apply_reuse).
+     <id> rpm <degree> <lower> <higher> <scale> <solver|none> <side> <prm16> A
+          <nscript> (apply f x0 | solve f x0 | solveA A2 f x0 | msapply f x0)*
+   as_preconditioner copies the matrix and sorts its rows (as_preconditioner.hpp:63-72); power_iters = 0
+   (Gershgorin bound). *)
+let () =
+  reg "rpm" (fun t ->
+    let degree = t_i t in let lower = t_q t in let higher = t_q t in let scale = t_i t <> 0 in
+    let solver = t_s t in let left = (t_s t = "left") in let p = t_prm t in
+    let a0 = t_crs t in
+    let a = MatOps.sort_rows sc a0 in
+    let n = List.length a.Crs.rows in
+    let ((c, d), m) = Cheby.cheby_setup sc scale a (Cheby.gershgorin sc scale a) lower higher (jvec n) in
+    let sp = ReuseProofs4.cheby_sp sc c d m degree a in
+    let st = ref (jvec n, jvec n) in
+    let ws = ref (fresh_ws solver n) in
+    let kp = kprm p left in
+    let solve (am : Crs.crs) f x =
+      let opA = op_of am in
+      match solver, !ws with
+      | "cg", WCg w -> let ((o, w'), s') = ReuseProofs2.cg_sp sc opA sp kp f x w !st in ws := WCg w'; st := s'; show_out o
+      | "richardson", WRi w -> let ((o, w'), s') = ReuseProofs2.richardson_sp sc opA sp kp f x w !st in ws := WRi w'; st := s'; show_out o
+      | "bicgstab", WBs w -> let ((o, w'), s') = ReuseProofs2.bicgstab_sp sc opA sp kp f x w !st in ws := WBs w'; st := s'; show_out o
+      | "gmres", WGm w -> let ((o, w'), s') = ReuseProofs3.gmres_sp sc opA sp kp f x w !st in ws := WGm w'; st := s'; show_out o
+      | "fgmres", WGm w -> let ((o, w'), s') = ReuseProofs3.fgmres_sp sc opA sp kp f x w !st in ws := WGm w'; st := s'; show_out o
+      | _ -> raise (Model_exc "UNSUPPORTED-solver") in
+    let ns = t_i t in
+    let out = ref [] in
+    for _ = 1 to ns do
+      let cmd = t_s t in
+      (match cmd with
+       | "apply" -> let f = t_vec t in let x = t_vec t in
+         let (x', s') = sp !st f x in st := s'; out := show_vec x' :: !out
+       | "solve" -> let f = t_vec t in let x = t_vec t in out := solve a f x :: !out
+       | "solveA" -> let a2 = t_crs t in let f = t_vec t in let x = t_vec t in out := solve a2 f x :: !out
+       | "msapply" -> let f = t_vec t in let x = t_vec t in
+         let r = solve a f (zeros (List.length x)) in
+         let r' = (match String.index_opt r '[' with Some i -> String.sub r i (String.length r - i) | None -> r) in
+         out := r' :: !out
+       | _ -> failwith ("bad script command " ^ cmd))
+    done;
+    String.concat " ; " (List.rev !out))
